@@ -46,13 +46,15 @@ def real_result(n_einsums, mapping):
     return spec.evaluate_mapping()
 
 
-def symbolise(res, values=None):
+def symbolise(res, values=None, zero_cols=()):
     import pandas as pd
     cells, row = {}, {}
     for c in res.data.columns:
         v = res.data[c].iloc[0]
         if isinstance(v, numbers.Number) and not isinstance(v, bool):
-            if values is None:
+            if c in zero_cols:
+                s = 0 if values is None else 0.0
+            elif values is None:
                 s = sympy.Symbol("c%d" % len(cells), nonnegative=True)
             else:
                 s = float(values.get("c%d" % len(cells), 0.0))
@@ -192,6 +194,7 @@ def shard(payload):
             m = s.model()
             viol.append((d, {n: float(model_value(m, v)) for n, v in tr.env.items()}))
         s.pop()
+    base_viol = list(viol)
     # seeded wrong expectation: 'latency() == max over everything' must be refuted with >= 2 Einsums
     if n_einsums >= 2:
         _, _, lat, _ = expected(row, einsums)
@@ -201,6 +204,51 @@ def shard(payload):
             raise HarnessError("seeded wrong expectation not refuted")
         st.mutants_refuted += 1
         s.pop()
+    # ---- derived result sets: the drop_* helpers remove only zero-valued columns, so every total is
+    # preserved.  Instantiated with one component's dynamic cells literally 0 (leak symbolic / zero).
+    comps = sorted({c.split(SEP)[2] for c in row if len(c.split(SEP)) >= 3 and c.split(SEP)[1] in ("energy", "latency", "action") and c.split(SEP)[0] in einsums})
+    for X in comps:
+        for leak_zero in (False, True):
+            zc = set()
+            for c in row:
+                p = c.split(SEP)
+                if len(p) >= 3 and p[0] in einsums and p[2] == X and p[1] in ("energy", "latency", "action"):
+                    if p[-1] == "leak" and not leak_zero:
+                        continue
+                    zc.add(c)
+            symz, cellsz, rowz = symbolise(res, zero_cols=zc)
+            with mock.patch.object(MM, "_coerce_numeric", lambda x: x), mock.patch.object(MM, "np", NPshim()):
+                try:
+                    derived = {"drop_components_with_zero_energy_and_latency": symz.drop_components_with_zero_energy_and_latency(),
+                               "drop_zeros": symz.drop_zeros()}
+                    outs_d = {k: (d.energy(), d.latency(), total(d.actions())) for k, d in derived.items()}
+                except Exception as e:  # noqa
+                    raise HarnessError(f"derived result set failed on symbols: {type(e).__name__}: {e}")
+            ecz, acz, latz, _ = expected(rowz, einsums)
+            E0 = sum(v for p, v in ecz)
+            A0 = sum(v for p, v in acz)
+            L0 = sum(Max(*[v for (e, c), v in latz.items() if e == en]) for en in einsums)
+            for k, (e1, l1, a1) in outs_d.items():
+                tag = f"{X} dynamic cells 0, leak {'0' if leak_zero else 'symbolic'}"
+                obs.append((f"after {k} [{tag}]: energy() unchanged", e1, E0))
+                obs.append((f"after {k} [{tag}]: latency() unchanged", l1, L0))
+                obs.append((f"after {k} [{tag}]: total actions unchanged", a1, A0))
+    terms = [(d, tr(sympy.expand(sympy.sympify(a) - sympy.sympify(b)))) for d, a, b in obs]
+    s = z3.Solver()
+    s.add([v >= 0 for v in tr.env.values()])
+    viol = []
+    for d, t in terms:
+        if not d.startswith("after "):
+            continue
+        s.push()
+        s.add(t != 0)
+        r = z3_check(s, st, 60000)
+        count_obligation(st, r, label + d)
+        if r == "sat":
+            m = s.model()
+            viol.append((d, {n: float(model_value(m, v)) for n, v in tr.env.items()}))
+        s.pop()
+    derived_viol = viol
     st.sample({"instantiation": label, "columns": len(row), "symbolic_cells": len(cells), "obligation": obs[0][0],
                "energy()": str(outs[("energy", (False,) * 4)])[:200]})
     # concrete validation on the real row: totals columns (producer invariant) and all identities
@@ -218,8 +266,13 @@ def shard(payload):
     for d, a, b in bad[:3]:
         out.append(dict(property=PID, n_einsums=n_einsums, mapping=mapping, obligation=d, values={}, accessor=a, expected=b,
                         what=f"{label}: {d}: accessor {a} vs {b} on the real result row"))
-    for d, vals in viol[:3]:
+    for d, vals in base_viol[:3]:
         v = replay(n_einsums, mapping, d, vals)
+        if v is None:
+            raise HarnessError(f"C28 model for '{d}' does not reproduce numerically")
+        out.append(v)
+    for d, vals in derived_viol[:3]:
+        v = replay_derived(n_einsums, mapping, d, vals)
         if v is None:
             raise HarnessError(f"C28 model for '{d}' does not reproduce numerically")
         out.append(v)
@@ -240,10 +293,105 @@ def replay(n_einsums, mapping, d, vals):
     return None
 
 
+def replay_derived(n_einsums, mapping, d, vals):
+    """numeric: component X's dynamic cells 0, other cells from the model; real drop helper, real accessors."""
+    import re
+    m = re.match(r"after (\w+) \[(\w+) dynamic cells 0, leak (0|symbolic)\]: (\w+)", d)
+    helper, X, leak, what = m.group(1), m.group(2), m.group(3), m.group(4)
+    res = real_result(n_einsums, mapping)
+    einsums = list(res.einsum_names)
+    zc = set()
+    for c in res.data.columns:
+        p = c.split(SEP)
+        if len(p) >= 3 and p[0] in einsums and p[2] == X and p[1] in ("energy", "latency", "action"):
+            if p[-1] == "leak" and leak != "0":
+                continue
+            zc.add(c)
+    numres, cells, row = symbolise(res, values={k: (v if v else 1.0) for k, v in vals.items()}, zero_cols=zc)
+    ecz, acz, latz, _ = expected(row, einsums)
+    d0 = getattr(numres, helper)()
+    got = {"energy": d0.energy(), "latency": d0.latency(), "total": total(d0.actions())}[what]
+    exp = {"energy": sum(v for p, v in ecz), "total": sum(v for p, v in acz),
+           "latency": sum(max(v for (e, c), v in latz.items() if e == en) for en in einsums)}[what]
+    if abs(float(got) - float(exp)) > 1e-9 * max(1.0, abs(float(exp))):
+        return dict(property=PID, n_einsums=n_einsums, mapping=mapping, obligation=d, values=vals, accessor=float(got), expected=float(exp), derived=True,
+                    what=f"matmuls x{n_einsums} ({mapping}): {d}: {float(got)} vs {float(exp)}")
+    return None
+
+
+def producer_shard(payload):
+    """'equals the Total column' for one Einsum: on the symbolic run_model output (n_instances
+    symbolic) Total latency == max over the per-component latency columns and Total energy == sum of
+    the energy columns - the invariant the accessors' totals rest on."""
+    from lib.symx import model as M
+    arch, wl, n = payload
+    st = Stats()
+    viol = []
+    Nw = sympy.Symbol("N_workload", positive=True, integer=True)
+    Ne = sympy.Symbol("N_einsum", positive=True, integer=True)
+    for sk in M.gen_skeletons(arch, wl, n, seed() + 28):
+        run = M.symbolic_run(arch, wl, sk, {}, {}, inst=(Nw, Ne))
+        if run.error:
+            st.extra.setdefault("symbolic_execution_failed", []).append(run.error[:100])
+            continue
+        st.instantiations += 1
+        df = run.df
+        lat = [M.canon(v) for c, v in df.items() if c.startswith("latency" + SEP)]
+        en = [M.canon(v) for c, v in df.items() if c.startswith("energy" + SEP)]
+        obs = [("Total latency == max of latency columns", M.canon(df["Total" + SEP + "latency"]), Max(*lat)),
+               ("Total dynamic+leak energy == sum of energy columns", M.canon(df["Total" + SEP + "dynamic_energy"]) + M.canon(df["Total" + SEP + "leak_energy"]), sum(en))]
+        tr = Tr()
+        s = z3.Solver()
+        def norm(e):
+            for k in (M.canon(Nw), M.canon(Ne)):
+                e = M.pull_positive_factor(e, k)
+            return e
+        terms = [(d, sympy.expand(norm(a) - norm(b))) for d, a, b in obs]
+        zt = [(d, tr(t), t) for d, t in terms]
+        s.add([v > 0 for v in tr.env.values()])
+        s.add(tr.constraints())
+        for d, t, raw in zt:
+            s.push()
+            s.add(t != 0)
+            r = z3_check(s, st, 30000)
+            if r == "unknown":
+                from lib.symx.tr import numeric_witness
+                w, _ = numeric_witness(raw)
+                r = "sat" if w else r
+            count_obligation(st, r, f"{arch}/{wl} {M.sk_str(sk)} {d}")
+            if r == "sat":
+                viol.append(dict(property=PID, producer=True, arch=arch, workload=wl, skeleton=sk, obligation=d,
+                                 what=f"producer invariant: {d} fails for {M.sk_str(sk)} with symbolic n_instances"))
+            s.pop()
+    out = []
+    for v in viol[:2]:
+        # replay: numbers through the public API, accessor vs Total column
+        from props import C05
+        sk = v["skeleton"]
+        row, _ = C05.concrete_run(v["arch"], v["workload"], sk, {}, {}, {i: 2 for i in M.loops_of(sk)}, {}, wl_opts=dict(n_instances=2, einsum_n_instances=3))
+        lat = [float(x) for c, x in row.items() if c.split(SEP)[1:2] == ["latency"] and len(c.split(SEP)) == 3]
+        en = [float(x) for c, x in row.items() if c.split(SEP)[1:2] == ["energy"]]
+        ok = abs(max(lat) - float(row["Total" + SEP + "latency"])) <= 1e-6 * max(lat) and abs(sum(en) - float(row["Total" + SEP + "energy"])) <= 1e-6 * sum(en)
+        if ok:
+            raise HarnessError(f"producer invariant violation does not reproduce: {v['what']}")
+        v["replayed"] = dict(max_latency_cols=max(lat), total_latency=float(row["Total" + SEP + "latency"]), sum_energy_cols=sum(en), total_energy=float(row["Total" + SEP + "energy"]))
+        out.append(v)
+    d = st.to_dict()
+    d["violations"] = out
+    return d
+
+
 def run(args):
     t0 = time.time()
     if args.replay:
         v = json.load(open(args.replay))
+        if v.get("producer"):
+            print(v["what"], v.get("replayed"))
+            return 1
+        if v.get("derived"):
+            r = replay_derived(v["n_einsums"], v["mapping"], v["obligation"], v["values"])
+            print(r["what"] if r else "holds")
+            return 1 if r else 0
         r = replay(v["n_einsums"], v["mapping"], v["obligation"], v["values"]) if v.get("values") else v
         print(r["what"] if r else "holds")
         return 1 if r else 0
@@ -256,9 +404,14 @@ def run(args):
     for r in res:
         stats.merge(r)
         violations.extend(r["violations"])
+    prod = [("A2", "MM", 4), ("A3", "MM", 3), ("A2T", "MV", 3)] if args.tier == "quick" else [("A2", "MM", 20), ("A3", "MM", 16), ("A2T", "MV", 12), ("A3T", "MM", 12)]
+    for r in run_sharded(producer_shard, prod, args.jobs):
+        stats.merge(r)
+        violations.extend(r["violations"])
+    stats.unknown += len(stats.extra.get("symbolic_execution_failed") or [])
     return finish(
         PID, args.tier, "model_checking", stats, t0, violations[:5], [],
-        functions_encoded=["Mappings.energy", "Mappings.actions", "Mappings.latency", "Mappings.resource_usage", "Mappings.access",
+        functions_encoded=["Mappings.drop_components_with_zero_energy_and_latency", "Mappings.drop_zeros", "run_model (totals, n_instances)", "Mappings.energy", "Mappings.actions", "Mappings.latency", "Mappings.resource_usage", "Mappings.access",
                            "Mappings._get_cols", "Mappings._get_keys_of_length", "Mappings.sum", "_series2list"],
         bounds=dict(results=[f"{n} Einsum(s), {m}" for n, m in payloads], rows=1, cells="every numeric cell a non-negative real symbol (unbounded)",
                     flag_sets="energy 16, actions 8, latency 4",
